@@ -180,7 +180,7 @@ pub fn run(ctx: &Ctx) -> (Report, Meta) {
             [(y0.0 + zsol[0].0, y0.1 + zsol[0].1), (y0.0 + zsol[1].0, y0.1 + zsol[1].1), (y0.0 + zsol[2].0, y0.1 + zsol[2].1)]
         };
         let mut zs: Vec<(f64, f64)> = vec![(-0.5, 0.0), (-0.9, 0.6), (0.125, -0.25), (-20.0, 0.0), (0.0, 2.0), (0.5, 0.0), (-3.0, 4.0), (-200.0, 3.0)];
-        for _ in 0..ctx.size(12, 200) {
+        for _ in 0..ctx.size(24, 2_000) {
             zs.push((-rng0.logu(1e-2, 1e2) * if rng0.chance(0.85) { 1.0 } else { -0.02 }, rng0.range(-5.0, 5.0)));
         }
         let th: Vec<f64> = (0..=16).map(|k| k as f64 / 16.0).collect();
@@ -239,7 +239,7 @@ pub fn run(ctx: &Ctx) -> (Report, Meta) {
     }
 
     // ------------------------------------------------------------------ O3 empirical interior error
-    let nprob = ctx.size(8, 64);
+    let nprob = ctx.size(16, 600);
     let th33: Vec<f64> = (0..=32).map(|k| k as f64 / 32.0).collect();
     for &m in [Method::RK4, Method::RK23, Method::DOPRI5, Method::DOP853, Method::RADAU].iter() {
         let mname_ = mname(m);
@@ -336,7 +336,7 @@ pub fn run(ctx: &Ctx) -> (Report, Meta) {
     }
 
     // ------------------------------------------------------------------ BDF: interior vs endpoint accuracy on whole runs
-    let nb = ctx.size(200, 10_000);
+    let nb = ctx.size(400, 40_000);
     for i in 0..nb {
         let case_id = format!("bdf/{}", i);
         if !ctx.want(&case_id) {
